@@ -6,7 +6,7 @@ STRONG, WEAK = "zq9!Lm#48vRw^t2Ypk", "password"
 RIGHT = {"user1": "Tz8_right.user.pw#1", "boss": "Tz8_right.admin.pw#2"}
 
 
-def build_dir(root, kind):
+def build_dir(root, kind, variant=0):
     base = os.path.join(root, "base")
     shutil.rmtree(root, ignore_errors=True)
     os.makedirs(base, mode=0o700)
@@ -19,23 +19,29 @@ def build_dir(root, kind):
             open(os.path.join(base, "notes.txt"), "wb").write(b"hello\n")
         if kind == "duplicate-user":
             open(os.path.join(base, "user1.admin"), "wb").write(rec(RIGHT["user1"]))
+        if variant % 2 == 1:      # the residue a crash may leave (and the property permits): a leftover file in the work area
+            os.makedirs(os.path.join(base, ".tmp"), mode=0o700)
+            open(os.path.join(base, ".tmp", "1789345126"), "wb").write(rec("whatever")[:40])
     cfg = os.path.join(root, "store.yaml")
     open(cfg, "w").write(fsfam.CFG % (base, base64.b64encode(fsfam.HMAC1).decode()))
     return base, cfg
 
 
-def snap(base):
+def snap(base, dirs=False):
     out = {}
     for dp, dn, fn in os.walk(base):
         for f in fn:
             p = os.path.join(dp, f)
             out[os.path.relpath(p, base)] = hashlib.sha256(open(p, "rb").read()).hexdigest()[:16]
+        if dirs:
+            for d in dn:
+                out[os.path.relpath(os.path.join(dp, d), base) + "/"] = "dir"
     return out
 
 
 def run_case(exe, work, i, e):
     c = e["case"]
-    base, cfg = build_dir(os.path.join(work, "c%d" % i), c["dir"])
+    base, cfg = build_dir(os.path.join(work, "c%d" % i), c["dir"], i)
     target = {"existing-user": "user1", "existing-admin": "boss", "nonexistent": "newbie", "invalid-name": "../x"}[c["target"]]
     if c["dir"] == "no-admin" and c["target"] == "existing-admin":
         return None               # there is no administrator in that directory class
@@ -54,13 +60,14 @@ def run_case(exe, work, i, e):
         argv += ["set-admin", target, cmd.split("-")[-1]]
     else:
         argv += [cmd, target, pw]
-    before = snap(base)
+    readonly = c["cmd"] in ("check", "list", "list-full", "authenticate")      # these may not even create the work area
+    before = snap(base, readonly)
     try:
         r = subprocess.run(argv, stdout=subprocess.PIPE, stderr=subprocess.STDOUT, text=True, timeout=30, stdin=subprocess.DEVNULL)
         rc, out = r.returncode, r.stdout[-300:]
     except subprocess.TimeoutExpired:
         rc, out = -9, "timeout"
-    after = snap(base)
+    after = snap(base, readonly)
     shutil.rmtree(os.path.join(work, "c%d" % i), ignore_errors=True)
     return {"edge": e, "rc": rc, "out": out, "changed": before != after, "argv": argv[5:]}
 
